@@ -20,7 +20,7 @@ RULE = ('case = one history (sequence of encrypt/protect operations in one proce
         'distinct = distinct history descriptors; the evidence also counts distinct secret values observed')
 ASSUMPTIONS = ['unpredictability of os.urandom / OpenSSL RNG is not decidable by monitoring: freshness, size and provenance are observed',
                'ECDH ephemeral keys and RSA padding come from OpenSSL and are visible only through outputs']
-MIN_COUNTERS = {'quick': {'operations': 180, 'session_keys_checked': 120, 'prefixes_checked': 120, 'salts_checked': 40, 'ivs_checked': 15, 'ephemerals_checked': 60, 'urandom_calls_seen': 300, 'reprotect_operations': 5, 'chained_recipient_operations': 10, 'encryptions_with_long_lived_key_object': 60, 'encryptions_of_a_long_lived_message_object': 80, 'encryptions_with_a_caller_supplied_session_key': 100, 'wrong_size_session_keys_offered': 100},
+MIN_COUNTERS = {'quick': {'operations': 180, 'session_keys_checked': 120, 'prefixes_checked': 120, 'salts_checked': 40, 'ivs_checked': 15, 'ephemerals_checked': 60, 'urandom_calls_seen': 300, 'reprotect_operations': 5, 'chained_recipient_operations': 10, 'encryptions_with_long_lived_key_object': 60, 'encryptions_of_a_long_lived_message_object': 80, 'encryptions_with_a_caller_supplied_session_key': 100, 'wrong_size_session_keys_offered': 100, 'session_keys_given_as_bytearray': 40},
                 'thorough': {'operations': 3000}}
 BUDGET = {'quick': (600, 1500), 'thorough': (1800, 3600)}
 TECHNIQUE = 'runtime monitoring: history monitor with interposed os.urandom (recording proxy) + reference extraction of secrets from outputs; freshness/size/provenance invariants'
@@ -154,7 +154,13 @@ def run_case(ctx, d):
                         for n in range(op['n']):
                             mm = msg if n != 1 else pgpy.PGPMessage.new(MSGS[(op['msg'] + 1) % 3], compression=CompressionAlgorithm.Uncompressed)
                             rec.start()
-                            enc = pubobjs[n % 2].encrypt(mm, cipher=calg, sessionkey=fixed)
+                            # handed over as bytes or as a bytearray (a caller that wants to wipe its own copy afterwards): it is the caller's buffer
+                            given = bytearray(fixed) if (n + len(rc)) % 2 else fixed
+                            enc = pubobjs[n % 2].encrypt(mm, cipher=calg, sessionkey=given)
+                            if bytes(given) != fixed:
+                                ctx.fail('caller-supplied-session-key-buffer-changed', {'op': op, 'rc': rc, 'type': type(given).__name__})
+                            if isinstance(given, bytearray):
+                                ctx.count('session_keys_given_as_bytearray')
                             window = list(rec.window)
                             view = encwork.ref_open(bytes(enc), [('key', m)])
                             res = view['results'][0]
@@ -162,7 +168,11 @@ def run_case(ctx, d):
                             if res is None or isinstance(res, Exception) or bytes(res[1]) != fixed:
                                 ctx.fail('caller-supplied-session-key-not-used', {'op': op, 'rc': rc, 'err': repr(res)[:120]})
                                 continue
-                            pt, prefix = encwork.open_data(view['data'], res[0], fixed)
+                            try:
+                                pt, prefix = encwork.open_data(view['data'], res[0], fixed)
+                            except Exception as ex:
+                                ctx.fail('data-not-encrypted-under-the-session-key-the-recipients-get', {'op': op, 'rc': rc, 'given_as': type(given).__name__, 'err': repr(ex)[:100]})
+                                continue
                             check(ctx, seen, 'prefix', prefix, sym.blocksize(cid), window, op, i)
                             for e in view['esk']:
                                 f = RPK.pkesk_fields(e.body)
